@@ -280,7 +280,7 @@ impl Suite for Api {
     }
     fn generate(&self, seed: u64, tier: &str) -> Vec<Case> {
         let mut r = Rng::new(seed ^ 0xC12_0002);
-        let n = if tier == "thorough" { 15_000 } else { 2_500 };
+        let n = if tier == "thorough" { 15_000 } else { 2_000 };
         let mut cases: Vec<Case> = PINNED.iter().map(|(c, t)| case_of(&crate::features::class_of(c, t), t)).collect();
         for t in ["SELECT name FROM _meta_tables", "SELECT * FROM _meta_tables", "SELECT COUNT(1) FROM _meta_tables"] {
             cases.push(Case { class: "fresh-db".into(), input: Sx::tagged("q", vec![Sx::bytes(t.as_bytes()), Sx::a("fresh")]) });
